@@ -154,9 +154,14 @@ func Harness_C01_resolve() {
 		// an earlier, failing resolution of another book with the same recipe names in the same
 		// process must not influence this one (state kept between calls)
 		pre := shared.NewDBNodeMap()
+		// one recipe refers to itself, the others are plain: depending on the visiting order some
+		// are finished before the failure
+		bad := verifChoose("prelude-cyclic-recipe", len(ref.names))
 		for i, r := range ref.names {
 			els := shared.NewElements()
-			els.Add(ref.names[(i+1)%len(ref.names)], 1)
+			if i == bad {
+				els.Add(r, 1)
+			}
 			els.Add("x", 1)
 			pre.Push(&shared.DBNode{Header: r, Elements: els})
 		}
